@@ -107,10 +107,11 @@ def stepC11 (d : DSt) (op : String) (got : String) : StepResult DSt :=
         match field toks "k", field toks "f" with
         | some ks, some fs => specFrames d (ks.toNat?.getD 0) (parseFrames fs) false
         | _, _ => (d, [])
-      let fails := fails ++ (if got.startsWith "stall" then [⟨"no-stall", "stall", s!"{op}: reader starved: {got}"⟩] else [])
+      let fails := fails ++ (if got.startsWith "stall" then [⟨"no-stall", "stall", s!"{op}: Read was offered an empty buffer (the receive loop spins, everything after this point is lost): {got}"⟩] else [])
+      let fails := fails ++ (if got.startsWith "hang" then [⟨"no-spin", "hang", s!"{op}: the receive loop neither returned to Read nor terminated: {got}"⟩] else [])
       let fails := fails ++ (if (field toks "ret").isSome && !d.specDead then
                                [⟨"no-abort", "early-return", s!"{op}: readTlvStream returned on a well-formed stream: {got}"⟩] else [])
-      let dS := { dS with specDead := d.specDead || (field toks "ret").isSome || got.startsWith "dead" || !crash.isEmpty }
+      let dS := { dS with specDead := d.specDead || (field toks "ret").isSome || got.startsWith "dead" || got.startsWith "hang" || got.startsWith "stall" || !crash.isEmpty }
       -- model side
       match d.dead with
       | some r => { st := dS, expected := some s!"dead {r}", spec := crash ++ fails }
